@@ -70,11 +70,13 @@ class InverseLaplaceTransformer(UnilateralInverseTransformer):
 
         if len(ncoeffs) > 3 or len(dcoeffs) > 3:
             self.error('Not a second-order response')
+        if len(dcoeffs) < 3 or dcoeffs[2] == 0 or any(c.is_real is False for c in ncoeffs + dcoeffs):
+            return self.ratfun(expr.expr, s, t)
 
         omega0 = sym.sqrt(dcoeffs[2])
         zeta = dcoeffs[1] / (2 * omega0)
 
-        if zeta.is_constant() and zeta > 1:
+        if zeta.is_constant() and zeta.is_real and zeta > 1:
             warn('Expression is overdamped')
 
         sigma1 = (zeta * omega0).simplify()
@@ -585,7 +587,7 @@ class InverseLaplaceTransformer(UnilateralInverseTransformer):
             try:
                 cresult, uresult = self.term1(expr, s, t, **kwargs)
             except:
-                return Zero, self.sympy(expr, s, t)
+                cresult, uresult = Zero, self.sympy(expr, s, t)
 
         if delay != 0:
             cresult = cresult.subs(t, t - delay)
